@@ -23,7 +23,7 @@ type GatedOutcome struct {
 func RunGated(r *Run, node execution.Node, ctl *Ctl, produce execution.ProduceFn, metaSend execution.MetaSendFn,
 	choose func(enabled []string) int, stepCap int) GatedOutcome {
 	var out GatedOutcome
-	bubble(r, func() {
+	p := bubbleRecover(r, func() {
 		done := make(chan struct{})
 		go func() {
 			defer close(done)
@@ -60,5 +60,9 @@ func RunGated(r *Run, node execution.Node, ctl *Ctl, produce execution.ProduceFn
 		ctl.Abort()
 		synctest.Wait()
 	})
+	if p != nil && !out.Deadlock {
+		// after a detected deadlock the bubble cannot end cleanly: expected, not a harness problem
+		r.Infra("bubble panic: %v", p)
+	}
 	return out
 }
